@@ -51,6 +51,8 @@ def generate(rng, tier):
             r = rng.random()
             if r < 0.03:
                 qs.append("d")
+            elif r < 0.08:
+                qs.append(rng.choice("nnw"))   # the public cursor API: step to the next segment / rewind
             else:
                 qs.append(rng.choice("pva") + str(rng.choice(ts) if rng.random() < 0.7 else f2b(rng.random() * sum(durs) / 900.0)))
         out.append((f"traj b {hx(blk)} " + " ".join(qs), True))
